@@ -315,6 +315,7 @@ class StmtMixin:
                         nv = v
                     st = st.copy()
                     st.loc[test.args[0].id] = nv
+                    self.assume_class_invariants(st, nv)
             return st
         if isinstance(test, ast.Compare) and len(test.ops) == 1 and isinstance(test.left, ast.Name) and test.left.id in st.loc \
                 and isinstance(test.comparators[0], ast.Constant) and test.comparators[0].value is None:
